@@ -91,10 +91,11 @@ fn shelley_roundtrip_fixed<S: Src>(s: &mut S, kind: u8) {
     fg(a2); fg(a);
 }
 
-/// pointer addresses: one natural of the triple ranges over all u64, the other two are fixed (this is
-/// variable_nat_encode/decode through the public API; a fully symbolic triple exhausts CBMC's memory because the
-/// three symbolic-length pieces are concatenated at symbolic offsets)
-fn pointer_roundtrip_at<S: Src>(s: &mut S, pos: u8) {
+/// pointer addresses, encode side: one natural of the triple ranges over all u64, the other two are fixed; the
+/// bytes equal the reference (header, hash, three big-endian base-128 naturals). The decode side is
+/// `strict_parse_ptr_long` / `strict_parse_short`; that the reference decoder inverts the reference encoder is
+/// `ref_varnat_inverse`. (A single harness doing encode and decode of a symbolic natural exhausts CBMC's memory.)
+fn pointer_encode_at<S: Src>(s: &mut S, pos: u8) {
     let net = s.u8();
     s.assume(net < 16);
     let ps = s.bool();
@@ -103,21 +104,48 @@ fn pointer_roundtrip_at<S: Src>(s: &mut S, pos: u8) {
     let p = match pos { 0 => (x, 300u64, 5u64), 1 => (7u64, x, 16384u64), _ => (129u64, 0u64, x) };
     let a = PointerAddress::new(net, &cred(ps, h1), &Pointer::new_pointer(&BigNum::from(p.0), &BigNum::from(p.1), &BigNum::from(p.2))).to_address();
     check_built(&a, 1, net, ps, false, &h1, &h1, p);
-    let b = a.to_bytes();
-    let a2 = Address::from_bytes(b).unwrap();
-    assert!(a2 == a);
-    let pa = PointerAddress::from_address(&a2).unwrap();
-    let sp = pa.stake_pointer();
-    assert!(u64::from(sp.slot_bignum()) == p.0);
-    assert!(u64::from(sp.tx_index_bignum()) == p.1);
-    assert!(u64::from(sp.cert_index_bignum()) == p.2);
     vcover!(x == u64::MAX, "10-byte natural");
     vcover!(x < 128, "1-byte natural");
-    fg(a2); fg(a); fg(pa);
+    fg(a);
 }
-pub fn pointer_rt_slot<S: Src>(s: &mut S) { pointer_roundtrip_at(s, 0) }
-pub fn pointer_rt_tx<S: Src>(s: &mut S) { pointer_roundtrip_at(s, 1) }
-pub fn pointer_rt_cert<S: Src>(s: &mut S) { pointer_roundtrip_at(s, 2) }
+pub fn pointer_enc_slot<S: Src>(s: &mut S) { pointer_encode_at(s, 0) }
+pub fn pointer_enc_tx<S: Src>(s: &mut S) { pointer_encode_at(s, 1) }
+pub fn pointer_enc_cert<S: Src>(s: &mut S) { pointer_encode_at(s, 2) }
+
+/// the harness's reference decoder inverts its reference encoder for every u64 (pure harness-side lemma)
+pub fn ref_varnat_inverse<S: Src>(s: &mut S) {
+    let n = s.u64();
+    let mut b = Buf::new();
+    ref_varnat(&mut b, n);
+    let r = ref_varnat_dec(b.as_slice(), 0);
+    assert!(r == Some((n, b.n)));
+    assert!(b.n >= 1 && b.n <= 10);
+}
+
+/// pointer addresses, decode side with long naturals: 29 + 12 bytes, every content: accepted iff three terminated
+/// naturals that fit u64 end exactly at the end; values as the reference decoder says
+pub fn strict_parse_ptr_long<S: Src>(s: &mut S) {
+    let buf: [u8; 41] = s.bytes();
+    s.assume(buf[0] >> 4 == 4 || buf[0] >> 4 == 5);
+    let exp = match ref_addr_end(&buf) { Some(e) => e == 41, None => false };
+    let r = Address::from_bytes(buf.to_vec());
+    match r {
+        Ok(a) => {
+            assert!(exp);
+            let pa = PointerAddress::from_address(&a).unwrap();
+            let sp = pa.stake_pointer();
+            let (v1, p1) = ref_varnat_dec(&buf, 29).unwrap();
+            let (v2, p2) = ref_varnat_dec(&buf, p1).unwrap();
+            let (v3, _) = ref_varnat_dec(&buf, p2).unwrap();
+            assert!(u64::from(sp.slot_bignum()) == v1 && u64::from(sp.tx_index_bignum()) == v2 && u64::from(sp.cert_index_bignum()) == v3);
+            assert!(pa.network_id() == buf[0] & 0x0f);
+            fg(pa); fg(a);
+        }
+        Err(e) => { assert!(!exp); fg(e); }
+    }
+    vcover!(exp && buf[29] == 0x81 && buf[38] & 0x80 == 0, "10-byte first natural accepted");
+    vcover!(!exp && buf[29] == 0x82 && buf[30] & 0x80 != 0 && buf[31] & 0x80 != 0 && buf[32] & 0x80 != 0 && buf[33] & 0x80 != 0 && buf[34] & 0x80 != 0 && buf[35] & 0x80 != 0 && buf[36] & 0x80 != 0 && buf[37] & 0x80 != 0 && buf[38] & 0x80 == 0, "natural above u64 rejected");
+}
 
 // ---------------------------------------------------------------- bytes -> value
 /// reference strict validity of a non-Byron Shelley address byte string
